@@ -110,9 +110,11 @@ CHECKS = {
     "C18": dict(
         category="model_checking", design_ref="DESIGN.md §4 C18",
         technique="explicit-state BFS over the real FilteringMessageLogger plus bounded-exhaustive enumeration of filter expression trees, leaf comparisons and export/import cases",
-        text="BFS over the real FilteringMessageLogger (ring buffer 2 and 3; alphabet log LLUDP/EQ/HTTP, four filters incl. match-nothing and type-inapplicable, pause, "
+        text="BFS over the real FilteringMessageLogger (ring buffer 1, 2 and 3; alphabet log LLUDP/EQ/HTTP, four filters incl. match-nothing and type-inapplicable, pause, "
              "resume, clear; depth 5 quick / 7 thorough) checks after every operation that the view equals the retained entries matching the current filter, in "
-             "arrival order, no duplicates. Around it: every depth<=2 expression tree and every unparenthesised chain up to length 4 over 7 leaf filters x 11 "
+             "arrival order, no duplicates; plus every history prefix . set_filter(narrowing) . (maxlen+1..maxlen+2 logs, every kind sequence) . "
+             "set_filter(wider) with prefixes {none, clear, log.clear, pause.resume, 3 logs} on ring buffer 2, executed without state deduplication (2,160 "
+             "histories); state identity includes the bound of every entry container. Around it: every depth<=2 expression tree and every unparenthesised chain up to length 4 over 7 leaf filters x 11 "
              "entries x both short-circuit modes (root vs children vs denotation); every operator x literal kind x selector shape x 12 entries against a plain "
              "type-table reference, also through add_log_entry/set_filter; freeze/thaw and export/import of one message per template plus EQ and HTTP entries.",
         note="Chains follow the grammar as written (right-nested, no precedence, ! binds to the next term); a bare selector means presence/truthiness; the verdict is "
@@ -191,7 +193,8 @@ CHECKS = {
         technique="bounded-exhaustive enumeration of decoded generator messages x torture text values x {beautify} x replacement tables; text-level enumeration of "
                   "eval-operator rewrites and expression payloads for the safe-mode clause with three independent evaluation detectors",
         text="Every message the template-driven generator produces for all 481 templates (value rows, block-count variants, all 256 flag bytes on basis templates), with "
-             "byte-variable alphabets extended by a text-layer torture list, is decoded from its datagram, printed with to_human_string (plain and beautified, four "
+             "byte-variable alphabets extended by a text-layer torture list (50 str / 30 bytes / 7 Fixed values, incl. the product {wrapped at 100 columns, "
+             ">=5-newline form} x {' #', tab-#, trailing ' \\', '=|', '=$', '[[NAME]]', '<1,2,3>', UUID-looking, parentheses} inside str and bytes values), is decoded from its datagram, printed with to_human_string (plain and beautified, four "
              "replacement tables, both directions), parsed with from_human_string(safe=True), serialized and compared with the datagram body. All reachable subfield "
              "serializers are exercised in beautified form (dense integer sets; context x fill x length payloads). Safe mode: 5 eval-operator rewrites and 46 expression "
              "payloads under '=' and '=|' at every variable position of every template's text, with a sentinel, counted builtins.eval/exec and an import side-effect probe.",
